@@ -245,7 +245,7 @@ GRID_STEPS = [1.0, 0.5, 2.5, 0.1, 0.3, 5.0, 2.0]
 ODD_TIME_STEPS = [90, 100, 450, 3900, 30, 45, 1000, 7, 5400]
 
 
-def gen_curve_record(rng, cls=None, odd_steps=False, open_in_storm=False):
+def gen_curve_record(rng, cls=None, odd_steps=False, open_in_storm=False, t0=None):
     """A record (same shape as harness.gen_classify records) with several storms,
     each followed by a decaying recession that comes back to about the same
     level, so that rises and recessions overlap in level.  Thresholds are chosen
@@ -254,7 +254,10 @@ def gen_curve_record(rng, cls=None, odd_steps=False, open_in_storm=False):
     not a whole number of hours: 3900, 5400 s; not a divisor of an hour: 1000 s) instead of 1200 / 1800 / 3600 s.
     open_in_storm: no dry stretch at the head of the record: the first rainfall time slice of the database is the
     first slice of a matched storm and the water level rises from its very first sample.
-    Both options are off by default and draw nothing from `rng` when off."""
+    t0: the epoch of the first sample (rounded down to a multiple of the step) instead of one of 2013 / 2000: with
+    odd_steps=1 or 2 and 1.6e9 <= t0 <= 4e9 the record is 1 s / 2 s logging at present-day (and post-2038) epochs,
+    where neighbouring epochs differ by less than 1e-9 relative.
+    All options are off by default and draw nothing from `rng` when off."""
     cls = cls or rng.choice(DS_CLASSES)
     step = rng.choice([1800, 3600, 1200])
     if odd_steps is True:
@@ -313,11 +316,241 @@ def gen_curve_record(rng, cls=None, odd_steps=False, open_in_storm=False):
     if rng.random() < 0.15 and len(rain) > 8:
         a = rng.randrange(2, len(rain) - 3)
         missing = [a]
-    t0 = rng.choice([1361318400, 1356998400, 946684800]) // step * step
+    t0 = (rng.choice([1361318400, 1356998400, 946684800]) if t0 is None else int(t0)) // step * step
     rec = dict(cls=cls, step=step, thr_s=thr_s, thr_j=thr_j, t0=t0, rain=rain, zeta=zeta,
                missing=missing, lead=rng.randrange(0, 2), trail=rng.randrange(1, 3), grid=grid)
     if odd_steps:
         rec['cls'] += ':step-%d' % step
     if open_in_storm:
         rec['cls'] += ':opens-in-storm'
+    return rec
+
+
+# ----------------------------------------------------------------- steep pairs, long series, large grids (C12 / C13)
+# Everything below draws only from the generator it is handed: the callers use their own streams
+# (C.rng_for(seed, PROP, '<tag>')), so the streams above are what they were.
+
+# Round numbers at which software cuts its work into blocks (samples per block, levels per batch, rows per query).
+BLOCK_SIZES = [1000, 1024, 2048, 4096, 8192]
+STEEP_COUNTS = [100, 137, 255, 256, 257, 300, 511, 512, 513, 700, 1000, 1023, 1024, 1025, 1500, 2048, 2049, 3000,
+                4096, 4097, 5000]
+
+
+def gen_steep_series(rng, direction, nlev=None, step=None):
+    """A short series (2-5 samples) in which ONE pair of consecutive samples crosses nlev multiples of the step
+    (100-5000: a drawdown of 1.4 m within an hourly sample at 1 mm, 9 mm within a minute at 0.01 mm), rising or
+    falling as the caller says; the other pairs are ordinary.  The ends of the steep pair are inside a cell, on a
+    level, or one ulp beside it."""
+    step = step or rng.choice(STEPS + [0.01, 1e-3, 10.0])
+    nlev = nlev or rng.choice(STEEP_COUNTS)
+    n = rng.choice([2, 2, 3, 4, 5])
+    j = rng.randrange(n - 1)                   # the steep pair is (j, j + 1)
+    k = rng.randrange(-3000, 3000)
+    ks = [k]
+    for i in range(n - 1):
+        if i == j:
+            k += nlev if direction == 'rising' else -nlev
+        else:
+            k += rng.choice([-3, -1, 0, 1, 2, 5])
+        ks.append(k)
+    ys = []
+    for i, kk in enumerate(ks):
+        mode = rng.choice(['in', 'in', 'on', 'below', 'above']) if i in (j, j + 1) else 'in'
+        ys.append(level_value(rng, kk, step, mode))
+    xcls = rng.choice(['index', 'epoch', 'offset', 'minute'])
+    if xcls == 'minute':
+        t0 = rng.choice([1700000000, 1361318400])
+        xs = [float(t0 + 60 * i) for i in range(n)]
+    else:
+        xs = gen_abscissae(rng, xcls, n)
+    return dict(cls='steep-%s' % direction, xcls='epoch' if xcls == 'minute' else xcls, x=xs, y=ys, step=step,
+                nlev=nlev)
+
+
+LONG_SHAPES = ['zigzag-drift', 'recession', 'zigzag', 'staircase']
+
+
+def seam_indices(n, blocks=None):
+    """Indices p (1 <= p < n) such that samples p - 1 and p fall into different blocks for one of the block sizes."""
+    return sorted({p for b in (blocks or BLOCK_SIZES) for p in range(b, n, b)})
+
+
+def gen_long_levels(rng, shape, n):
+    """Cell of each of n samples.  Whatever the shape, the pair of samples (p - 1, p) at EVERY seam p of
+    seam_indices(n) crosses at least one level, and for the shapes 'recession' and 'staircase' the levels crossed
+    there are crossed nowhere else (monotone record: a crossing that is lost is a level that is lost)."""
+    seams = set(seam_indices(n))
+    k = rng.randrange(-400, 400)
+    ks = [k]
+    for i in range(1, n):
+        if shape == 'zigzag-drift':          # saw-tooth of 1-3 cells on a slow decline: a level is crossed 5-30 times
+            d = rng.choice([1, 2, 3]) if i % 2 else -rng.choice([1, 2, 3])
+            if i % 8 == 0:
+                d -= 1
+        elif shape == 'zigzag':              # saw-tooth about one level: a few levels, each crossed thousands of times
+            d = rng.choice([1, 2]) if ks[-1] <= k else -rng.choice([1, 2])
+        elif shape == 'recession':           # slow monotone fall: most pairs lie inside one cell
+            d = -1 if rng.random() < 0.12 else 0
+        else:                                # staircase up: long flats, steps of 1-4 cells
+            d = rng.choice([1, 1, 2, 4]) if rng.random() < 0.08 else 0
+        if i in seams and d == 0:
+            d = -1 if shape == 'recession' else 1
+        ks.append(ks[-1] + d)
+    return ks
+
+
+def gen_long_series(rng, n, shape=None, step=None, xcls=None):
+    """One series of n samples (meant: 1500 <= n <= 10000, not a multiple of a block size) with level crossings IN
+    the pairs of samples that straddle a block boundary for the block sizes 1000, 1024, 2048, 4096, 8192."""
+    shape = shape or rng.choice(LONG_SHAPES)
+    step = step or rng.choice(STEPS)
+    ks = gen_long_levels(rng, shape, n)
+    seams = set(seam_indices(n))
+    ys = []
+    for i, kk in enumerate(ks):
+        if i and kk == ks[i - 1] and rng.random() < 0.5:
+            ys.append(ys[-1])                    # exactly flat pair
+            continue
+        near_seam = i in seams or i + 1 in seams
+        mode = rng.choice(['in', 'in', 'on', 'below', 'above']) if near_seam else rng.choice(['in', 'in', 'in', 'on'])
+        if shape in ('recession', 'staircase') and mode != 'in':
+            mode = 'in'                          # keep the record monotone (an ulp below a level is in the cell below)
+        ys.append(level_value(rng, kk, step, mode))
+    if shape in ('recession', 'staircase'):
+        # inside one cell the draws are not ordered: sort each run of samples that share a cell
+        i = 0
+        while i < n:
+            j = i
+            while j + 1 < n and ks[j + 1] == ks[i]:
+                j += 1
+            ys[i:j + 1] = sorted(ys[i:j + 1], reverse=(shape == 'recession'))
+            i = j + 1
+    xcls = xcls or rng.choice(['epoch', 'offset', 'index'])
+    if xcls == 'epoch':
+        t0 = rng.choice([1361318400, 1700000000, 1425170400])
+        xs = [float(t0 + 600 * i) for i in range(n)]
+    elif xcls == 'offset':
+        xs = [float(600 * i) for i in range(n)]
+    else:
+        xs = [float(i) for i in range(n)]
+    return dict(cls='long-%s' % shape, xcls=xcls, x=xs, y=ys, step=step, n=n)
+
+
+def long_sizes(rng, tier='quick'):
+    """Sizes of the long series of one run: one past 4096 (and, one run in two, past 8192), one between 1500 and 4500;
+    thorough: more.  Never a multiple of a block size; one size in four is a block size + 1 (a last block of one
+    sample)."""
+    def pick(lo, hi):
+        if rng.random() < 0.25:
+            c = [b + 1 for b in BLOCK_SIZES if lo <= b + 1 <= hi]
+            if c:
+                return rng.choice(c)
+        while True:
+            n = rng.randrange(lo, hi + 1)
+            if all(n % b for b in BLOCK_SIZES):
+                return n
+    sizes = [pick(8193, 10000) if rng.random() < 0.5 else pick(4097, 8191), pick(1500, 4500)]
+    if tier != 'quick':
+        sizes += [pick(8193, 10000), pick(4097, 8191), pick(2049, 4095), pick(1500, 2047), pick(4097, 10000)]
+    return sizes
+
+
+# large grids: more levels than fit into the round numbers a batch is cut at
+LARGE_GRID_COUNTS = [10001, 10050, 12503, 16385, 20001, 32769, 65537]
+
+
+def gen_large_grid_case(rng, kind=None):
+    """Water levels and a grid step for populate_zeta_grid whose grid is far from the usual few hundred levels:
+    'fine'   a fine step on an ordinary range (0.02 mm over 250 mm): > 10000 levels;
+    'deep'   an ordinary step on a record spanning > 10 m: > 10000 levels;
+    'coarse' a step larger than the whole range (the grid has no level, or one)."""
+    kind = kind or rng.choice(['fine', 'deep', 'coarse'])
+    if kind == 'coarse':
+        step = rng.choice([1000.0, 500.0, 250.0, 1e4])
+        k = rng.randrange(-2, 2)
+        zs = [level_value(rng, k, step, rng.choice(['in', 'on', 'below', 'above'])),
+              level_value(rng, k + rng.choice([0, 0, 1]), step, rng.choice(['in', 'on', 'below', 'above']))]
+    else:
+        count = rng.choice(LARGE_GRID_COUNTS) + rng.choice([0, 0, 1, 7, 250])
+        step = rng.choice([0.02, 0.05, 0.01, 1e-3]) if kind == 'fine' else rng.choice([1.0, 0.5, 2.5])
+        top = rng.choice([-100.5, 10.0, -0.25, 250.0]) if kind == 'fine' else rng.choice([150.0, -20.0, 0.0])
+        khi = math.ceil(top / step)
+        klo = khi - count
+        zs = [level_value(rng, klo, step, rng.choice(['in', 'on', 'above'])),
+              level_value(rng, khi, step, rng.choice(['on', 'below'])),
+              level_value(rng, rng.randrange(klo + 1, khi), step, 'in')]
+    rng.shuffle(zs)
+    return dict(zetas=zs, step=step, kind='large-grid-' + kind)
+
+
+def gen_long_recession_record(rng, nlong, grid=None):
+    """A record for the command line with 10-minute samples: two ordinary storms with short steep recessions, then a
+    storm followed by ONE interstorm interval of about nlong samples (> 1024: longer than a week; > 4096: a month): a
+    slow decline carrying a saw-tooth of more than one grid step per sample, so that EVERY pair of consecutive samples
+    of the interval crosses a level (in particular the pairs straddling sample 1000, 1024, 2048, 4096 of the interval,
+    wherever classification puts its first sample) and every level is crossed about 10 times; the saw-tooth's rises
+    stay under the jump threshold.  The short recessions fall through the same range of levels as the long one (the
+    master curve keeps only levels shared by two intervals), so the long interval has a stored crossing value along
+    its whole length.  Same shape of dict as gen_curve_record."""
+    step = 600
+    thr_s, thr_j = rng.choice([2.0, 4.0]), 5.0
+    delta = thr_j * step / 3600.0                       # 0.833 mm per sample
+    grid = grid or rng.choice([0.25, 0.5, 0.3])
+    up = min(1.3 * grid, 0.9 * delta)
+    base = rng.choice([-300.0, -120.5, -40.0, -75.25])
+    rain, zeta = [0.0], [base, base - 0.25]
+    gain = rng.choice([40.0, 60.0, 85.0])
+    floor = base - 22.0
+    for storm in range(3):
+        ls = rng.randrange(2, 5)
+        peak = base + gain + rng.choice([0.0, 1.5, 3.25])
+        rise = (peak - zeta[-1]) / ls
+        for _ in range(ls):
+            rain.append(thr_s + rng.choice([0.5, 1.0, 2.5, 6.0]))
+            zeta.append(zeta[-1] + rise)
+        rain.append(thr_s / 2)
+        zeta.append(zeta[-1] - 0.125)
+        if storm < 2:
+            top = zeta[-1]
+            for k in range(rng.randrange(9, 14)):
+                rain.append(0.0)
+                zeta.append(floor + (top - floor) * 0.6 ** (k + 1))
+        else:
+            drift = (zeta[-1] - floor - 2.0) / nlong        # ends about 2 mm above the foot of the short recessions
+            for k in range(nlong):
+                rain.append(0.0)
+                f = rng.choice([0.9, 1.0, 0.95])
+                zeta.append(zeta[-1] + (up * f if k % 2 else -up * f - 2 * drift))
+    zeta = zeta[:len(rain)]
+    t0 = rng.choice([1425170400, 1361318400, 1700000000]) // step * step
+    return dict(cls='long-recession:%d' % (1024 if nlong < 4096 else 4096), step=step, thr_s=thr_s, thr_j=thr_j, t0=t0,
+                rain=rain, zeta=zeta, missing=[], lead=1, trail=1, grid=grid, oracle_only=True)
+
+
+def gen_large_grid_record(rng, kind):
+    """A record for the command line whose water-level grid needs more than 10000 levels:
+    'fine': an ordinary record (gen_curve_record, class decay) with a grid step of two significant digits (0.0023 mm)
+            chosen so that range / step is about 10400, 11000 or 12500;
+    'deep': a grid step of 1 or 0.5 mm and a record whose level falls by more than 10 m (10500-12000 steps) between two
+            samples of a dry spell (the logger was moved / the pond drained): one recession crosses every level, the
+            storms before it sit at the top of the grid, those after it at the bottom."""
+    rec = gen_curve_record(rng, 'decay')
+    for _ in range(6):
+        if len(rec['rain']) <= 24:       # two or three storms: every interval crosses most of the > 10000 levels
+            break
+        rec = gen_curve_record(rng, 'decay')
+    z = rec['zeta']
+    if kind == 'fine':
+        span = max(z) - min(z)
+        rec['grid'] = float('%.2g' % (span / rng.choice([10400, 11000, 12500])))
+    else:
+        rec['grid'] = rng.choice([1.0, 0.5])
+        dry = [i for i in range(2, len(rec['rain'])) if rec['rain'][i] == 0.0 and rec['rain'][i - 1] == 0.0
+               and any(rec['rain'][:i])]
+        i = rng.choice(dry)
+        drop = rec['grid'] * rng.choice([10500, 10001.5, 12000.25])
+        rec['zeta'] = z[:i] + [v - drop for v in z[i:]]
+    rec['missing'] = []
+    rec['cls'] = 'large-grid-%s' % kind
+    rec['oracle_only'] = True
     return rec
